@@ -536,9 +536,26 @@ def rt_source_changed(req):
                 except TypeError as e:
                     problems.append('stale-source: %s accepts %s %s but the call raises TypeError: %s' % (sg, a, k, e))
                     break
+        # the file changes while the function object lives on: what is at its lines now is comments, blank lines, or another
+        # statement altogether - retrieval still answers (with the plain signature), as inspect.signature does (finding D62)
+        last = mod.run
+        for label, text in (('comments', '# rewritten\n' * 40), ('blank lines', '\n' * 40), ('other statements', 'x = 1\n' * 40),
+                            ('half a statement', '    return (\n' * 40), ('empty file', '')):
+            linecache.cache[fname] = (len(text), None, text.splitlines(True), fname)
+            try:
+                with warnings.catch_warnings():
+                    warnings.simplefilter('ignore')
+                    got = str(sigtools.signature(last))
+                    want = str(inspect.signature(last))
+            except Exception as e:  # noqa
+                problems.append('source-replaced-raises: the text of the file was replaced by %s after the function was defined; '
+                                'sigtools.signature raises %s: %s (inspect.signature answers)' % (label, type(e).__name__, e))
+                continue
+            if got != want:
+                problems.append('source-replaced: with %s at its lines, sigtools.signature(run) = %s, its own signature is %s' % (label, got, want))
     finally:
         linecache.cache.pop(fname, None)
-    return ('ok', tuple(problems[:1]), 'probed')
+    return ('ok', tuple(problems[:2]), 'probed')
 
 
 RT['source_changed'] = rt_source_changed
@@ -1276,6 +1293,16 @@ def rt_modprov(req):
             bound = getattr(mod.inst, attr)
             check('C().' + attr, bound, [] if plain_annotate else [raw], False, relaxed=plain_annotate)
         check('Init', mod.Init, [], False, relaxed=True)
+        # ... and through a functools.partial object of the bound method: keys = parameters (finding D60)
+        for attr in ('m3', 'm4'):
+            pobj = functools.partial(getattr(mod.inst, attr), 1)
+            with warnings.catch_warnings():
+                warnings.simplefilter('ignore')
+                psig = signatures.signature(pobj)
+            keys = sorted(k for k in psig.sources if k != '+depths')
+            if keys != sorted(psig.parameters):
+                problems.append('modifier-provenance-keys: functools.partial(C().%s, 1): sources keys %s, parameters %s' % (
+                    attr, keys, list(psig.parameters)))
     finally:
         progs.unload(fname)
     return ('ok', tuple(problems[:3]), 'probed')
